@@ -212,6 +212,26 @@ def classify(prog, R, rule, fns, reviewed, skip=lambda s: False, auto=None):
             if not (first and first[0]["bb"] in b.dominators()[s_["bb"]] and first[0]["bb"] != s_["bb"]):
                 R.ob(rule, key, False, s_["at"], "reviewed as 'the first unwrap of the same accessor result dominates this one', which no longer holds")
                 continue
+        if e.get("calls_dominated"):
+            # the site is safe in callers of the given family only after another call has happened there:
+            # {"in": <caller npath prefix>, "by_call": <callee suffix>}: every call of this function in such a caller
+            # is dominated by a call of by_call
+            cd = e["calls_dominated"]
+            badc = []
+            for cb in prog.bodies.values():
+                if not cb.npath.startswith(cd["in"]):
+                    continue
+                doms = None
+                for bi, t in cb.calls():
+                    if (cb.callee_of(t) or "") != s_["fn"]:
+                        continue
+                    doms = doms or cb.dominators()
+                    pre = [x for x in doms[bi] if x != bi and cb.blocks[x].term.get("k") == "call" and (cb.callee_of(cb.blocks[x].term) or "").endswith(cd["by_call"])]
+                    if not pre:
+                        badc.append(f"{cb.npath.split('::')[-1]} at {t.get('at', '?')}")
+            if badc:
+                R.ob(rule, key, False, s_["at"], f"reviewed as safe because `{e['reason'][:110]}…`; in {cd['in']}* the call must come after {cd['by_call']}, which no longer holds for: {badc[:3]}")
+                continue
         if e.get("guard"):
             okg, whyg = dominating_guard(b, s_["bb"], e["guard"])
             if not okg:
